@@ -46,6 +46,7 @@ pub fn run_c13(run: &mut Run) -> anyhow::Result<()> {
     // ---- (B) fabric scenarios
     let nscen = std::env::var("VERIF_C13_SCEN").ok().and_then(|s| s.parse().ok()).unwrap_or(if run.quick() { 40 } else { 1500 });
     for sc in 0..nscen {
+        run.mark(&format!("scenario dialing {sc} seed {} (re-run with ./check C13 --seed <seed>)", run.seed));
         scenario(run, &mut rng, sc as u64)?;
     }
     Ok(())
